@@ -200,6 +200,119 @@ def run_two_agents(params, known):
     return dict(name=params['name'], kind='enum', evaluations=count, nontrivial_keys=sorted(keys), violations=violations, known=[], samples=[])
 
 
+def _big(total, lo, hi, seq):
+    payload = bytes((i * 31 + (i >> 8) * 7 + 5) & 0xFF for i in range(total))
+    pri = dict(flags=B.FLAG_IS_FRAGMENT, crc_type=1, dest='dtn://node/app', src='dtn://big/', report_to='dtn:none',
+               ts=(T, seq), lifetime=3600000, frag_offset=lo, total_adu=total)
+    blocks = []
+    if lo == 0:
+        blocks.append(dict(type=200, num=2, flags=0, crc_type=1, data=b'\x09'))
+    blocks.append(dict(type=1, num=1, flags=0, crc_type=2, data=payload[lo:hi]))
+    return (payload, dict(primary=pri, blocks=blocks))
+
+
+def run_sizes(params, known):
+    '''Application data units around 64 KiB and 128 KiB cut in two or three fragments at and next to
+    those boundaries, the fragments arriving in every order: the delivered payload is the original,
+    octet for octet, once.'''
+    import itertools
+    violations = []
+    kinds = set()
+    count = 0
+    keys = set()
+    cases = []
+    for total in (65535, 65536, 65537, 66000, 131073):
+        cuts2 = sorted({1, 65535, 65536, 65537, total - 1} & set(range(1, total)))
+        for c in cuts2:
+            cases.append((total, [0, c, total]))
+        cases.append((total, [0, 300, total - 300, total]))
+        cases.append((total, [0, total // 2, total // 2 + 1, total]))
+    for (n, (total, cuts)) in enumerate(cases):
+        if n % params.get('parts', 1) != params.get('part', 0):
+            continue
+        frags = [(cuts[i], cuts[i + 1]) for i in range(len(cuts) - 1)]
+        for order in itertools.permutations(range(len(frags))):
+            count += 1
+            world = BpWorld(dict(node_id=NODE, rx_routes=[('^dtn://node/.*', 'deliver')], tx_routes=[]))
+            payload = None
+            for k in order:
+                (payload, bundle) = _big(total, frags[k][0], frags[k][1], 5)
+                world.receive(B.encode(bundle))
+                world.quiesce()
+            label = 'total %d, fragments %r arriving in order %r' % (total, frags, order)
+            keys.add('%d/%r/%r' % (total, cuts, order))
+            found = None
+            if world.escaped or world.api_errors:
+                esc = (world.escaped or world.api_errors)[-1]
+                found = ('exception-escaped', '%s: %s' % (esc[0], esc[2] if world.escaped else esc[1]))
+            else:
+                got = [bytes.fromhex(b[2]) for d in world.probe.seen for b in d['blocks'] if b[0] == 1]
+                if len(got) != 1:
+                    found = ('complete-bundle-not-delivered' if not got else 'delivered-more-than-once', '%d deliveries' % len(got))
+                elif got[0] != payload:
+                    diff = [i for i in range(min(len(got[0]), len(payload))) if got[0][i] != payload[i]]
+                    found = ('reassembled-payload-differs', 'delivered %d octets, original %d, first difference at octet %s'
+                             % (len(got[0]), len(payload), diff[0] if diff else 'the end'))
+            if found and found[0] not in kinds:
+                kinds.add(found[0])
+                v = Violation(PROP, 'reassembly', found[0], dict(), '%s: %s' % (label, found[1])).as_dict()
+                v['case'] = dict(total=total, cuts=cuts, order=list(order))
+                violations.append(v)
+    return dict(name=params['name'], kind='enum', evaluations=count, nontrivial_keys=sorted(keys), violations=violations, known=[], samples=[])
+
+
+def run_long_gap(params, known):
+    '''Bundle X arrives in fragments, then N other bundles (each delivered once), then the fragments
+    of X and the unfragmented X again; or the N others arrive between the two halves of X.  X is
+    delivered exactly once whatever N.'''
+    violations = []
+    kinds = set()
+    count = 0
+    keys = set()
+
+    def other(i):
+        pri = dict(flags=0, crc_type=1, dest='dtn://node/app', src='dtn://bulk/', report_to='dtn:none', ts=(T + 5, i), lifetime=3600000)
+        return B.encode(dict(primary=pri, blocks=[dict(type=1, num=1, flags=0, crc_type=1, data=b'bulk%d' % i)]))
+    x = [ENC[3], ENC[5], ENC[6]]    # X[0,3) X[3,6) X
+    for gap in (0, 1, 255, 256, 257, 300, 1100):
+        for shape in ('X-complete-then-gap-then-repeats', 'gap-between-the-halves', 'whole-then-gap-then-fragments'):
+            count += 1
+            world = BpWorld(dict(node_id=NODE, rx_routes=[('^dtn://node/.*', 'deliver')], tx_routes=[], max_quiesce=4000))
+            seq = {'X-complete-then-gap-then-repeats': [x[0], x[1], 'gap', x[0], x[1], x[2], x[1], x[0]],
+                   'gap-between-the-halves': [x[0], 'gap', x[1], 'gap', x[1], x[0], x[2]],
+                   'whole-then-gap-then-fragments': [x[2], 'gap', x[0], x[1], x[2]]}[shape]
+            nth = 0
+            for item in seq:
+                if item == 'gap':
+                    for _ in range(gap):
+                        nth += 1
+                        world.receive(other(nth))
+                        world.quiesce()
+                else:
+                    world.receive(item)
+                    world.quiesce()
+            keys.add('%s/%d' % (shape, gap))
+            found = None
+            if world.escaped or world.api_errors:
+                esc = (world.escaped or world.api_errors)[-1]
+                found = ('exception-escaped', '%s: %s' % (esc[0], esc[2] if world.escaped else esc[1]))
+            else:
+                xs = [d for d in world.probe.seen if d['src'] == 'dtn://src/']
+                others = [d for d in world.probe.seen if d['src'] == 'dtn://bulk/']
+                if len(xs) != 1:
+                    found = ('delivered-more-than-once' if xs else 'complete-bundle-not-delivered', 'X delivered %d times' % len(xs))
+                elif [bytes.fromhex(b[2]) for b in xs[0]['blocks'] if b[0] == 1] != [b'ABCDEF']:
+                    found = ('reassembled-payload-differs', repr(xs[0]['blocks']))
+                elif len(others) != nth:
+                    found = ('other-bundles-not-delivered-once', '%d deliveries of %d other bundles' % (len(others), nth))
+            if found and found[0] not in kinds:
+                kinds.add(found[0])
+                v = Violation(PROP, 'reassembly', found[0], dict(), '%s with %d other bundles in each gap: %s' % (shape, gap, found[1])).as_dict()
+                v['case'] = dict(shape=shape, gap=gap)
+                violations.append(v)
+    return dict(name=params['name'], kind='enum', evaluations=count, nontrivial_keys=sorted(keys), violations=violations, known=[], samples=[])
+
+
 def scenarios(tier):
     depth = 5 if tier == 'thorough' else 4
     out = []
@@ -222,6 +335,9 @@ def scenarios(tier):
                         params=dict(max_depth=depth + 1, letters=qs, prefix=[first]), dev_bound=0, use_snapshot=False,
                         liveness=False, max_states=400000, weight=3))
     out.append(dict(name='two-agents', kind='enum', runner='run_two_agents', params=dict(name='two-agents'), weight=3))
+    for part in range(4):
+        out.append(dict(name='sizes-%d/4' % (part + 1), kind='enum', runner='run_sizes', params=dict(name='sizes-%d/4' % (part + 1), part=part, parts=4), weight=6))
+    out.append(dict(name='long-gap', kind='enum', runner='run_long_gap', params=dict(name='long-gap'), weight=6))
     # a fragmented administrative record, alone and interleaved with fragments of X
     adm = [11, 12, 13, 3, 5]
     for first in (11, 12, 13):
@@ -237,6 +353,8 @@ ASSUMPTIONS = [
     'six-octet payloads; fragmentations {[0,2),[2,4),[4,6)}, {[0,3),[2,5),[4,6)} and {[0,3),[3,6)} of X may be mixed; two look-alike bundles',
     'arrival histories of at most 4 (quick) / 5 (thorough) elements over the whole alphabet, 6 / 7 over X alone; idle callbacks interleaved in every order',
     'overlapping fragments of one bundle carry consistent octets',
+    'sizes: application data units of 65535, 65536, 65537, 66000 and 131073 octets in two or three fragments cut at and next to 64 KiB, every arrival order',
+    'long gaps: 0, 1, 255, 256, 257, 300 or 1100 other bundles between the completion of X and repeats of its fragments, or between its two halves',
 ]
 
 RULE = ('explicit-state search by replay on fresh real agents over arrival histories (any alphabet element next, repeats '
